@@ -190,7 +190,7 @@ theorem specU32list (bs : Bytes) : ∀ xs, u32list bs = some xs →
 /-! ### entry headers -/
 
 /-- decoding from a truncated input decodes the same from the whole input -/
-theorem decodeVarint_of_take (bs : Bytes) (k v l : Nat)
+theorem decodeVarint_of_take_spec (bs : Bytes) (k v l : Nat)
     (h : decodeVarint (bs.take k) = some (v, l)) : decodeVarint bs = some (v, l) := by
   have hl := (decodeVarint_some_len _ _ _ h).2.2.1
   have hk : l ≤ k := by rw [List.length_take] at hl; omega
@@ -203,7 +203,7 @@ theorem specVarint_take (bs : Bytes) (m v : Nat) (rest : Bytes)
     ∃ l, decodeVarint bs = some (v, l) ∧ rest = (bs.drop l).take (m - l) ∧ l ≤ m ∧ l ≤ bs.length := by
   obtain ⟨l, hd, hr, hl⟩ := specVarint_eq _ _ _ h hv
   rw [List.length_take] at hl
-  refine ⟨l, decodeVarint_of_take _ _ _ _ hd, ?_, by omega, by omega⟩
+  refine ⟨l, decodeVarint_of_take_spec _ _ _ _ hd, ?_, by omega, by omega⟩
   rw [hr, List.drop_take]
 
 theorem specHeader (bs : Bytes) (m s ns vl : Nat) (r1 r2 r3 : Bytes)
